@@ -12,7 +12,7 @@ func parseSx(s string) *sx {
 	pos := 0
 	var rec func() *sx
 	rec = func() *sx {
-		for pos < len(s) && s[pos] == ' ' {
+		for pos < len(s) && isWS(s[pos]) {
 			pos++
 		}
 		if pos >= len(s) {
@@ -22,7 +22,7 @@ func parseSx(s string) *sx {
 			pos++
 			n := &sx{}
 			for {
-				for pos < len(s) && s[pos] == ' ' {
+				for pos < len(s) && isWS(s[pos]) {
 					pos++
 				}
 				if pos >= len(s) {
@@ -43,7 +43,7 @@ func parseSx(s string) *sx {
 			}
 			pos++
 		} else {
-			for pos < len(s) && s[pos] != ' ' && s[pos] != '(' && s[pos] != ')' {
+			for pos < len(s) && !isWS(s[pos]) && s[pos] != '(' && s[pos] != ')' {
 				pos++
 			}
 		}
@@ -51,6 +51,8 @@ func parseSx(s string) *sx {
 	}
 	return rec()
 }
+
+func isWS(c byte) bool { return c == ' ' || c == '\n' || c == '\t' || c == '\r' }
 
 func (n *sx) String() string {
 	var sb strings.Builder
